@@ -123,7 +123,9 @@ func (s *rrSegFetcher) doCheck() {
 
 	// queue outgoing interest for the next segment
 	args := ExpressRArgs{
-		Name: append(state.fetchName,
+		// full slice expression: never write into spare capacity of fetchName, the names of
+		// Interests that are still queued in outpipe would all change to this segment
+		Name: append(state.fetchName[:len(state.fetchName):len(state.fetchName)],
 			enc.NewSegmentComponent(seg),
 		),
 		Config: &ndn.InterestConfig{
